@@ -1247,10 +1247,18 @@ def _hash_next(ex, it):
     if not remaining:
         return NONE()
     pol = getattr(ex, 'hash_order', None)
-    if pol == 'insertion':
+    rep = getattr(ex, 'hash_replay', None)
+    if rep:
+        j = rep.pop(0)
+        if j >= len(remaining):
+            raise Unsupported('hash iteration replay out of range')
+    elif pol == 'insertion':
         j = 0
     else:
         j = ex.choose(len(remaining), label='hash-iter')
+    rec = getattr(ex, 'hash_record', None)
+    if rec is not None:
+        rec.append(j)
     i = remaining.pop(j)
     ex.events.append(('hash_iter', i))
     kr = Ref(r.cell, tuple(r.path) + (('i', i), ('f', 0)))
